@@ -6,6 +6,7 @@ use proptest::prelude::*;
 pub mod cancel;
 pub mod chan;
 pub mod condvar;
+pub mod cqueue;
 pub mod mutex;
 pub mod park;
 pub mod rwlock;
@@ -32,6 +33,7 @@ pub const FAMILIES: &[Family] = &[
     Family { name: "cancel", runtime: true, max_steps: 300_000, run: cancel::run },
     Family { name: "park", runtime: true, max_steps: 300_000, run: park::run },
     Family { name: "scope", runtime: true, max_steps: 300_000, run: scope::run },
+    Family { name: "cqueue", runtime: true, max_steps: 300_000, run: cqueue::run },
     Family { name: "spawn", runtime: true, max_steps: 400_000, run: spawn::run },
 ];
 
@@ -63,6 +65,13 @@ fn chan_c07(g: &GenCfg) -> BoxedStrategy<Case> {
 }
 
 pub const PROPS: &[Prop] = &[
+    Prop {
+        id: "C16",
+        quick: 6000,
+        thorough: 200_000,
+        rule: "cqueue family: (a) a poller (thread or coroutine) opens a cqueue scope with 1-4 arms whose top halves are immediate / mpsc recv fed by a feeder / sleep / Semphore::wait, 1-3 events each, optionally panicking in the top or bottom half of the last event; the poller issues 1-6 polls (None or Some(d)) and Selector::remove operations and then leaves the scope; (b) the select! macro over 2-3 receiving arms whose feeders fire at generated, often nearly equal, times; generated schedule. Non-trivial = at least one pre-emption AND (a) an event was polled with >= 2 arms present / (b) two arms became ready within 3 us. Distinct = distinct hash of (program, config, schedule).",
+        units: &[Unit { fam: "cqueue", label: "cqueue", share: 1, strategy: cqueue::strategy }],
+    },
     Prop {
         id: "C14",
         quick: 6000,
